@@ -145,7 +145,7 @@ structure E2EObs where
 
 /-- the timeout clauses: gRPC — the server saw a deadline consistent with `t` (bounds `lo:hi` in ns; `n` = none);
 stall — the export gave up before the stalled answer iff `0 < t < stall` -/
-def e2eTimeoutOK (exp : Exp) (stallNs : Int) (t : Int) (o : E2EObs) : Bool :=
+def e2eTimeoutOK (lenient : Bool) (exp : Exp) (stallNs : Int) (t : Int) (o : E2EObs) : Bool :=
   (if exp.isHttp then o.dl == "-"
    else if t ≤ 0 then o.dl == "n"
    else match o.dl.splitOn ":" with
@@ -154,15 +154,22 @@ def e2eTimeoutOK (exp : Exp) (stallNs : Int) (t : Int) (o : E2EObs) : Bool :=
        | _, _ => false)
      | _ => false) &&
   (if stallNs == 0 then o.st == "-"
-   else o.st == (if 0 < t && t < stallNs then "T" else "D"))
+   else
+     let want := if 0 < t && t < stallNs then "T" else "D"
+     -- `D` only says that no give-up was OBSERVED before the stalled answer was due: under load an export that did
+     -- time out can look like that (seen once in a thorough run on a loaded machine, not reproducible on replay), so
+     -- for the ORACLE `D` instead of `T` is not a failure by itself — it stays a disagreement with the model, which a
+     -- `timing` leg must reproduce on three re-executions. `T` instead of `D` (gave up although the timeout is far
+     -- beyond the stall) cannot be caused by load and fails the oracle.
+     o.st == want || (lenient && want == "T" && o.st == "D"))
 
 /-- all clauses for a request that got through: `pathOK` decides the path clause -/
-def e2eRequestOK (exp : Exp) (stallNs : Int) (pathOK : Bytes → Bool) (hd : Hdrs) (co : Bool) (t : Int) (o : E2EObs) : Bool × Bool :=
+def e2eRequestOK (lenient : Bool) (exp : Exp) (stallNs : Int) (pathOK : Bytes → Bool) (hd : Hdrs) (co : Bool) (t : Int) (o : E2EObs) : Bool × Bool :=
   let rest :=
     (match hdrTok o.hdrs with
      | some h => h.isPerm (wireHdrs hd)
      | none => false) &&
-    o.gz == b2s co && e2eTimeoutOK exp stallNs t o
+    o.gz == b2s co && e2eTimeoutOK lenient exp stallNs t o
   let p := match parseHex o.path with
     | some p => if exp.isHttp then (wirePathSources p).any pathOK else p == e2eMethod exp
     | none => false
@@ -203,10 +210,10 @@ def e2eLine (inp obs : List String) : Option Verdict :=
                   else if who == "-" then "ok"
                   else if certVar then "FAIL" else "ok")
         else
-          let (mRest, mPath) := e2eRequestOK exp stallNs (· == m.path) m.headers m.comp m.timeout o
+          let (mRest, mPath) := e2eRequestOK false exp stallNs (· == m.path) m.headers m.comp m.timeout o
           let agree := agreeWho && mRest && mPath && plain == b2s (!usesTLS) && through &&
             ct == hexOf (e2eContentType exp) && ua == hexOf (e2eUserAgent exp)
-          let (sRest, sPath) := e2eRequestOK exp stallNs (Spec.pathOK exp (Spec.pathSource exp parse e os))
+          let (sRest, sPath) := e2eRequestOK true exp stallNs (Spec.pathOK exp (Spec.pathSource exp parse e os))
             (Spec.expectedHeaders exp e os) (Spec.expectedComp exp e os) (Spec.expectedTimeout exp e os) o
           (agree, if specWho && sRest && sPath then "ok"
                   else if specWho && sRest && f20 then "KNOWN:F20" else "FAIL")
@@ -236,11 +243,89 @@ def e2eLine (inp obs : List String) : Option Verdict :=
            branches := ex ++ "," ++ ",".intercalate tags, model := modelStr }
   | _ => none
 
+/-! ### slow collector × construction path (`tmo`, harness/bb/otlpe2e/c14_tmo_test.go; shared with C14)
+
+`tmo <gen> <exp> <path> <opt> <envs> <envg> <M ms> <k|inf> => <res> n<requests> f<band> e<band>`: the REAL exporter,
+built through the public API on the given construction path (HTTP: def | proxy | tls | tlsproxy | envcert | gz;
+gRPC: def | tls | dial | conn | svc | envcert | gz) with the timeout from option / signal-specific / generic variable
+(`-` absent, `a` = 120 ms, `b` = 900 ms, `x` = `abc`), against a collector that never answers the first requests.
+`f` = when the collector saw the first request abandoned, counted from the start of the export: `A` = [120, 720] ms,
+`B` = [900, 1500] ms — a timer never fires early, so the band names the timeout the client REALLY ran with. agree:
+that band is the band of `effectiveTimeout` (model) and the call came back (`e` at most that band). spec: the
+observation contradicts `Spec.expectedTimeout` in a way load cannot explain — the export never came back (`stuck`,
+reproduced three times by the harness: no timeout was in effect at all) or the first request was abandoned EARLIER
+than the expected timeout. -/
+def tmoSrc (tok : String) : Env :=
+  match tok with
+  | "a" => some (strBytes "120")
+  | "b" => some (strBytes "900")
+  | "x" => some (strBytes "abc")
+  | _ => none
+
+def tmoLine (inp obs : List String) : Option Verdict :=
+  match inp, obs with
+  | [_, _, ex, path, opt, envs, envg, _, k], [res, _, fTok, eTok] => do
+    let exp ← expTok ex
+    let os : List UOpt := match opt with
+      | "a" => [.timeout 120000000]
+      | "b" => [.timeout 900000000]
+      | _ => []
+    let e : OtlpEnv := { epS := none, epG := none, insS := none, insG := none, hdS := none, hdG := none,
+                          coS := none, coG := none, toS := tmoSrc envs, toG := tmoSrc envg }
+    let b : Build := { tls := path == "tls" || path == "tlsproxy" || path == "envcert",
+                       proxy := path == "proxy" || path == "tlsproxy", suppliedConn := path == "conn" }
+    let bandOf (t : Int) : String := if t == 120000000 then "A" else if t == 900000000 then "B" else "gt"
+    let m := effectiveTimeout exp (fun _ => none) e os b
+    let want := Spec.expectedTimeout exp e os
+    let mBand := bandOf m
+    let wBand := bandOf want
+    let agree := res != "stuck" && fTok == "f" ++ mBand && (eTok == "eA" || eTok == "e" ++ mBand)
+    let early := fTok == "flt" || (wBand != "A" && (fTok == "fA" || fTok == "fmid"))
+    let spec := if res == "stuck" || early then "FAIL" else "ok"
+    pure { agree := agree, spec := spec, nontrivial := true,
+           branches := ex ++ "," ++ path ++ "," ++
+             srcTag "to" (Spec.lastSome Spec.optTimeout os).isSome (Spec.provTimeout exp e.toS).isSome
+               (Spec.provTimeout exp e.toG).isSome ++
+             (if [e.toS, e.toG].any (fun v => (Spec.envVal exp v).any (fun s => (atoi s).isNone)) then ",to-invalid" else "") ++
+             (if k == "inf" then ",alwaysslow" else ",slowthenok"),
+           model := s!"f{mBand} {m}" }
+  | _, _ => none
+
+/-- `eff <gen> <exp> <path> <opt ns|-> <toS> <toG> => <timeout ns> <own 0|1>` (white box, five client packages): the
+timeout the client returned by the package's constructor runs with (`http.Client.Timeout` / `exportTimeout`) and
+whether it uses the package-level transport itself / dials its own connection — against `newClientM` over
+`newConfig` (agree) and `Spec.expectedTimeout` (spec). -/
+def effLine (inp obs : List String) : Option Verdict :=
+  match inp, obs with
+  | [_, _, ex, path, opt, toS, toG], [to, own] => do
+    let exp ← expTok ex
+    let o ← optTok opt
+    let os : List UOpt := match o with
+      | some n => [.timeout n]
+      | none => []
+    let e : OtlpEnv := { epS := none, epG := none, insS := none, insG := none, hdS := none, hdG := none,
+                          coS := none, coG := none, toS := ← envTok toS, toG := ← envTok toG }
+    let b : Build := { tls := path == "tls" || path == "tlsproxy", proxy := path == "proxy" || path == "tlsproxy",
+                       suppliedConn := path == "conn" }
+    let m := newClientM exp b (newConfig exp (fun _ => none) e os)
+    let t ← parseInt to
+    pure { agree := m.timeout == t && b2s m.own == own,
+           spec := if t == Spec.expectedTimeout exp e os then "ok" else "FAIL",
+           nontrivial := o.isSome || (Spec.envVal exp e.toS).isSome || (Spec.envVal exp e.toG).isSome,
+           branches := ex ++ "," ++ path ++ "," ++
+             srcTag "to" o.isSome (Spec.provTimeout exp e.toS).isSome (Spec.provTimeout exp e.toG).isSome ++
+             (if [e.toS, e.toG].any (fun v => (Spec.envVal exp v).any (fun s => (atoi s).isNone)) then ",to-invalid" else "") ++
+             (if m.own then ",own" else ",notown"),
+           model := s!"{m.timeout} {b2s m.own}" }
+  | _, _ => none
+
 def stepLine (_ : Unit) (toks : List String) : Unit × Option Verdict :=
   let (inp, obs) := splitObs toks
   let obsS := " ".intercalate obs
   let r : Option Verdict :=
     if inp.head? == some "e2e20" then e2eLine inp obs else
+    if inp.head? == some "tmo" then tmoLine inp obs else
+    if inp.head? == some "eff" then effLine inp obs else
     match inp with
     | ["bsp", _, oq, ob, od, ot, eq, eb, ed, et] => do
       let i : BspIn := { oq := ← optTok oq, ob := ← optTok ob, od := ← optTok od, ot := ← optTok ot,
